@@ -301,5 +301,5 @@ def check(model, rep, tier):
     # the per-tomogram loaders a batch averages over are rebuilt with every setting of the batch (order, scale, output_shape, corner_safe)
     from .generic import rebuild_ctor_obligations, functions_in
     rebuild_ctor_obligations(model, rep, functions_in(model, ["acryo/loader/_batch.py"]), "1 reducers")
-    rep.floor("CTOR", 2, "(LoaderAccessor rebuilds per-tomogram loaders from the batch loader)")
+    rep.floor("CTOR", 1, "(LoaderAccessor rebuilds per-tomogram loaders from the batch loader, directly or in one shared helper)")
 
